@@ -9,7 +9,7 @@ import z3
 from pyvc import smt
 from pyvc.contracts import Contract, Int, Float, Const, Custom
 from pyvc.lib import ArrOf, SArr, CArr
-from pyvc.smt import And, Or, Not, Implies, Forall, lift
+from pyvc.smt import And, Or, Not, Implies, Forall, Exists, Sequent, lift
 from pyvc.values import SInt, SFloat
 from .spec import ln, _rv, _isnan
 
@@ -166,4 +166,58 @@ def register(reg):
                   - _rv(smt.CURRENT_CTX.ghost['locals_at_exit']['base_comp_heights'][0]) >= _rv(min_sep)},
         raises={},
         notes='block contract: verified from `base_comp_heights = [...]` to the end; the prefix is replaced by the assumed mid-condition',
+    ))
+    register_best_gmm(reg)
+
+
+# =============================================================================================
+# best_gmm (part of the prefix of ncomp_from_gmm that the block contract above assumes away): which model index comes back
+# =============================================================================================
+BG = 'ampycloud.layer.best_gmm'
+
+
+def _bg_post(result, abics, mode, min_prob, delta_mul_gain):
+    r = lift(result.t if hasattr(result, 't') else result)
+    n = ln(abics)
+    g = _rv(delta_mul_gain)
+    return {
+        # the index names one of the models scored (C05: K <= len(ncomp) <= ncomp_max; C08: ncomp[best_model_ind] cannot run off the end)
+        'index_in_range': And(r >= 0, Or(r < n, And(n == 0, r == 0))),
+        # a model other than the simplest one is returned only for a score that beat an earlier model's score times the gain: its score
+        # is a number (a NaN score is never selected) and lies strictly below gain * an earlier (non-NaN) score
+        'a_nan_score_is_never_selected': Implies(r >= 1, Not(_isnan(abics[r]))),
+        'later_model_only_for_a_beating_score': Sequent([r >= 1], Exists(0, r, lambda j: And(
+            Not(_isnan(abics[j])), _rv(abics[r]) < g * _rv(abics[j])))),
+    }
+
+
+def _bg_inv(E, i):
+    b = lift(E.best_model_ind.t if hasattr(E.best_model_ind, 't') else E.best_model_ind)
+    g = _rv(E.delta_mul_gain)
+    smt.CURRENT_CTX.hint(b)          # the witness of the existential after an update is the model that was the best one before it
+    return {
+        'best_seen_so_far': And(b >= 0, b <= i),
+        # with an unknown mode no iteration ever completes (the first one raises)
+        'unknown_mode_never_completes_an_iteration': True if E.mode == 'delta' else i == 0,
+        'beating_score_is_a_number': Implies(b >= 1, Not(_isnan(E.abics[b]))),
+        'beating_score': Sequent([b >= 1], Exists(0, b, lambda j: And(
+            Not(_isnan(E.abics[j])), _rv(E.abics[b]) < g * _rv(E.abics[j])))),
+    }
+
+
+def register_best_gmm(reg):
+    reg.add(Contract(
+        BG, properties=('C05',),
+        params={'abics': ArrOf('float'), 'mode': Const('delta'), 'min_prob': Float(nan=False), 'delta_mul_gain': Float(nan=False)},
+        cases=[('mode=delta', {'mode': Const('delta')}), ('mode=unknown', {'mode': Const('no-such-mode')})],
+        result=Int(),
+        ensures=_bg_post,
+        # an unknown mode is refused -- but only once a second model is looked at (with fewer than two scores the loop body never runs)
+        raises={'AmpycloudError': lambda abics, mode, min_prob, delta_mul_gain: And(mode != 'delta', ln(abics) >= 2) if isinstance(mode, str)
+                else False},
+        loops={0: {'invariant': _bg_inv}},
+        canaries={'always_the_simplest_model': lambda result, **kw: lift(result.t if hasattr(result, 't') else result) == 0,
+                  'always_the_lowest_score': lambda result, abics, **kw: Forall(0, ln(abics), lambda j: Implies(
+                      Not(_isnan(abics[j])), _rv(abics[lift(result.t if hasattr(result, 't') else result)]) <= _rv(abics[j])))},
+        notes="mode='prob' (scores2nrl: exp / sum of relative likelihoods) is not under contract; the documented default 'delta' is",
     ))
